@@ -1204,6 +1204,13 @@ def _forward_subst(fn_node: ast.FunctionDef, keep: set, alias_only: bool = False
                                 b = b.value
                             if isinstance(b, ast.Name) and b.id == v:
                                 mutated = True
+                # a method called on the name as a statement, its result thrown away (v.insert(..), v.append(..), v.sort()): it is
+                # called for its effect on the object
+                for s2 in rest:
+                    for n in ast.walk(s2):
+                        if isinstance(n, ast.Expr) and isinstance(n.value, ast.Call) and isinstance(n.value.func, ast.Attribute) and \
+                                isinstance(n.value.func.value, ast.Name) and n.value.func.value.id == v:
+                            mutated = True
                 # a use inside a loop / comprehension would re-evaluate the expression: only substitute outside loops
                 def _mentions(x):
                     return any(isinstance(n, ast.Name) and n.id == v for n in ast.walk(x))
